@@ -230,6 +230,11 @@ pub fn params_replay(args: &Args) -> i32 {
             streams.push((label, s));
         }
     }
+    for (label, s) in crate::gen::big_block_streams(&mut rng, false) {
+        if label.contains("literals") || label.contains("one-reference") {
+            streams.push((label, s));
+        }
+    }
     if let Some(extra) = args.get("extra") {
         if let Ok(txt) = std::fs::read_to_string(extra) {
             // spread over the whole file: the generator's modes (mixed, far, twin) come one after the other
@@ -256,7 +261,12 @@ pub fn params_replay(args: &Args) -> i32 {
     // --isolate: every call in a forked child with memory and CPU limits (a decoder that misreads
     // what the encoder wrote can allocate without bound); single threaded, as fork demands
     let isolate = args.get("isolate").is_some();
-    par_for(jobs.len(), if isolate { 1 } else { args.num("threads", 12) as usize }, |j, _| {
+    // a reconstruction that never ends: the watchdog ends the run (status 3) and the driver repeats it
+    // with --isolate, where the child's CPU limit ends the call and the case is reported
+    let nthreads = if isolate { 1 } else { args.num("threads", 12) as usize };
+    let wd = Watchdog::start(nthreads, std::time::Duration::from_secs(if isolate { 3600 } else { 90 }), Box::new(|_id| {}));
+    par_for(jobs.len(), nthreads, |j, w| {
+        wd.enter(w, "job");
         let (vi, si) = jobs[j];
         let v = &vecs[vi];
         let (label, s) = &streams[si];
@@ -319,6 +329,8 @@ pub fn params_replay(args: &Args) -> i32 {
                 writeln!(out.lock().unwrap(), "{}", json!({"kind":"violation","sig":sig,"why":why,"vec":v,"label":label,"hex":hex(s)})).unwrap();
             }
         }
+        drop(c);
+        wd.leave(w);
     });
     let c = counts.lock().unwrap();
     writeln!(out.lock().unwrap(), "{}", json!({"kind":"summary","vectors":vecs.len(),"streams":streams.len(),"evaluations":jobs.len(),"ok":c.0,"err":c.1,"violations":c.2,
